@@ -43,7 +43,7 @@ P["C14"] = dict(
          "mapACPITable call that produced it, every possibly-nil error return of mapACPITable crosses validTable(header, header.Length)==true "
          "(per phi edge), bad tables log and continue, root pointer returns cross a checksum over exactly the structure's bytes on the right "
          "revision side, entry width/shift/step agree per arm, mapping order and DSDT pointer selection. Found and fixed F8 (40-byte checksum "
-         "of the 36-byte RSDP). Scan completeness over all positions and table contents are not decided. Round 5: the scan window's two variables (found by role) are initialised to 0xe0000 and 0xfffff.",
+         "of the 36-byte RSDP). Scan completeness over all positions and table contents are not decided. Round 5: the scan window's two variables (found by role) are initialised to 0xe0000 and 0xfffff. Round 9: every path to a tableMap insert passes tableMap = make(...) in the same enumeration (a table registered by an earlier enumeration does not stay registered).",
     technique="SSA dominance/cut queries with per-phi-edge nil analysis + constant folding of struct sizes",
     ref="DESIGN.md section 3, C14",
 )
@@ -52,7 +52,7 @@ P["C16"] = dict(
     text="Bring-up structure decided on all paths: sort before probe with canonical Less/Len/Swap, failed or absent drivers never reach activation "
          "and never stop the loop, first console/TTY win (stores dominated by == nil), link on the second arrival with AttachTo -> SetOutputSink -> "
          "SetState(active), early-log hand-over (sink stored on every path, ring drained exactly when a sink is set, ring written exactly when none "
-         "is, masked indices, overwrite-oldest). 'Exactly once, in order' over all chunkings and ringBuffer.Read's two-segment arithmetic are not decided.",
+         "is, masked indices, overwrite-oldest). 'Exactly once, in order' over all chunkings and ringBuffer.Read's two-segment arithmetic are not decided. Round 9: no line is written through the per-driver log writer after onDriverInit without its sink snapshot having been renewed (the line of the driver that completes the console/terminal pair would stay in the early ring buffer).",
     technique="SSA dominance / must-pass-through ordering + writers-of ownership + canonical-body matching",
     ref="DESIGN.md section 3, C16",
 )
@@ -100,7 +100,7 @@ P["C03"] = dict(
     text="Accounting structure: bitmap capacity, free counter, totals and both reservation passes are the same symbolic frame count n (found and "
          "fixed F1, where they were n-1), free's error contract (guards dominate every store, distinct errors, nothing modified before a rejection), "
          "every bit change paired with exactly one update of each counter on every path, and error propagation of every *kernel.Error call result "
-         "in the init chain. 'Never crashes' in general and counts over histories are not decided. Round 5: the two passes of setupPoolBitmaps select the same regions (pass-agreement).",
+         "in the init chain. 'Never crashes' in general and counts over histories are not decided. Round 5: the two passes of setupPoolBitmaps select the same regions (pass-agreement). Round 9: a bitmap word is stored to only in AllocFrame, FreeFrame and the mark function (writers-of; a fourth writer changes bits without the counters).",
     technique="polynomial/rounding normal forms (symbolic sizes) + SSA dominance + path pairing",
     ref="DESIGN.md section 3, C03",
 )
@@ -111,7 +111,7 @@ P["C04"] = dict(
          "flush on the inactive scenario and no entry write on the active scenario (the two tests are correlated, infeasible paths dropped), new "
          "levels allocated-then-zeroed with the allocation error returned untouched, error cell returned unmodified, region helpers map exactly "
          "cdiv(size,4096) pages with page and frame advancing together. The recursive-mapping arithmetic of walk and 'other pages unchanged' are not decided. "
-         "Added: (R6) the page count of MapRegion/IdentityMapRegion in induction form (trip count = cdiv(size,4096), page and frame advance by one) and no unguarded unsigned subtraction in it; (R7) paging geometry constants and the level/table loop of walk. Round 5: no way round the page loop of MapRegion / IdentityMapRegion misses the map call.",
+         "Added: (R6) the page count of MapRegion/IdentityMapRegion in induction form (trip count = cdiv(size,4096), page and frame advance by one) and no unguarded unsigned subtraction in it; (R7) paging geometry constants and the level/table loop of walk. Round 5: no way round the page loop of MapRegion / IdentityMapRegion misses the map call. Round 9: the bound of a region helper's page loop contains no unsigned subtraction that can wrap (inclusive last-page forms with size-1), followed through calls of the program's own functions.",
     technique="SSA path ordering + correlated-condition scenario enumeration + polynomial normal forms",
     ref="DESIGN.md section 3, C04",
 )
@@ -213,7 +213,7 @@ P["C10"] = dict(
     text="Decoding structure of the multiboot reader: exact complement property of the type normalisation decided for all 2^32 values through "
          "interval representatives (found and fixed F3), strides taken from the block's own headers, first-match / end-tag exits of the tag scan, "
          "payload dereferenced only when present, provenance of every integer that becomes a pointer, non-empty ELF sections and RGB-only colour info. "
-         "Exact decoding of all blocks, reads past the block's end and command-line splitting are not decided. Added: every iteration of the entry loop reaches the visitor (no entry is skipped) and ELF section headers are read only inside the loop bounded by numSections (nothing behind an empty table is touched); the strides are decided on the loop's induction form (cursor or offset, symbolic entry size). Round 5: the region type is an unsigned 32-bit value (entry-type-unsigned), so that the normalisation comparison covers the upper half of the range.",
+         "Exact decoding of all blocks, reads past the block's end and command-line splitting are not decided. Added: every iteration of the entry loop reaches the visitor (no entry is skipped) and ELF section headers are read only inside the loop bounded by numSections (nothing behind an empty table is touched); the strides are decided on the loop's induction form (cursor or offset, symbolic entry size). Round 5: the region type is an unsigned 32-bit value (entry-type-unsigned), so that the normalisation comparison covers the upper half of the range. Round 9: the defined set of region types is the four values 1..4 of the pinned tree (a fifth exported constant lets one more raw value through).",
     technique="comparison-set evaluation over interval representatives + SSA dominance + pointer provenance (taint) analysis",
     ref="DESIGN.md section 3, C10",
 )
